@@ -130,7 +130,16 @@ class C28(SchedProp):
              'ops': [_L] + _job('1/d', msgs=('started',)) + [_L, _trig(['1/d', '1/e'], flow=['new'])],
              'kind': 'cmdtrig'},
         ]
-        raws = run_workers(probes, 2)
+        raws = None
+        for attempt in range(3):       # a worker that fails to start (overloaded machine) is an infrastructure hiccup
+            try:
+                raws = run_workers(probes, 2)
+            except Infra:
+                if attempt == 2:
+                    raise
+                continue
+            if not any('error' in raw for raw in raws):
+                break
         for raw in raws:
             if 'error' in raw:
                 raise Infra(f'C28 probe run failed: {raw["error"][-400:]}')
